@@ -739,7 +739,7 @@ CORPUS = [
 
 def gen_cases(ctx):
     rng = ctx.rng
-    nrand = 1000 if ctx.tier == 'quick' else 20000
+    nrand = 800 if ctx.tier == "quick" else 20000
     cases = [list(c) for c in CORPUS]
     for _ in range(nrand):
         cases.append(gen_history(rng, rng.randint(1, 40)))
@@ -936,6 +936,230 @@ def sweep_digraphs(args):
     return hi - lo, acyclic, failures
 
 
+# ---------------------------------------------------------------- large graphs
+def large_edges(spec, safe_depth):
+    '''(insertion order of the nodes, edges (a, b): a depends on b, cyclic?) of a large graph family;
+    the first-stored node ("hub", position 0 of the RList) has many dependees that also have other
+    dependencies'''
+    import random
+    rng = random.Random(spec['seed'])
+    n, kind = spec['n'], spec['kind']
+    if kind == 'chain':
+        n = min(n, safe_depth)
+        edges = [(i, i + 1) for i in range(n - 1)]
+        order = list(range(n))
+        if spec.get('first') == 'deep':
+            order.reverse()
+        elif spec.get('first') == 'random':
+            rng.shuffle(order)
+        return order, edges, False
+    depth = spec['depth']
+    bounds = [round(k * n / (depth + 1)) for k in range(depth + 2)]
+    layers = [list(range(bounds[k], bounds[k + 1])) for k in range(depth + 1)]
+    hub_layer = depth if spec.get('hub', 'bottom') == 'bottom' else max(1, depth // 2)
+    hub = layers[hub_layer][0]
+    edges = set()
+    for lay in range(depth):
+        for a in layers[lay]:
+            for b in rng.sample(layers[lay + 1], min(len(layers[lay + 1]), rng.randint(1, 3))):
+                edges.add((a, b))
+            if lay < hub_layer and rng.random() < 0.3:
+                edges.add((a, hub))
+    cyclic = False
+    if kind == 'cycle_first':
+        top = layers[0][rng.randrange(len(layers[0]))]
+        edges.add((top, hub))
+        edges.add((hub, top))
+        cyclic = True
+    elif kind == 'cycle_else':
+        a = layers[0][rng.randrange(len(layers[0]))]
+        path = [a]
+        while True:
+            nxt = sorted(b for (x, b) in edges if x == path[-1] and b != hub)
+            if not nxt:
+                break
+            path.append(nxt[0])
+        if len(path) > 1:
+            edges.add((path[-1], a))
+            cyclic = True
+    rest = [i for i in range(n) if i != hub]
+    rng.shuffle(rest)
+    first = spec.get('first', 'hub')
+    order = [hub] + rest if first == 'hub' else rest[:n // 2] + [hub] + rest[n // 2:]
+    return order, sorted(edges), cyclic
+
+
+def kahn_acyclic(nodes, edges):
+    indeg = {a: 0 for a in nodes}
+    dependees = {a: [] for a in nodes}
+    for a, b in edges:
+        indeg[a] += 1
+        dependees[b].append(a)
+    todo = [a for a in nodes if indeg[a] == 0]
+    seen = 0
+    while todo:
+        b = todo.pop()
+        seen += 1
+        for a in dependees[b]:
+            indeg[a] -= 1
+            if indeg[a] == 0:
+                todo.append(a)
+    return seen == len(nodes)
+
+
+def run_large(spec):
+    '''one large graph on the REAL DepGraph against plain sets: nodes, edges, dependencies, dependees,
+    topological_sort, reduction/closure (layered, acyclic), removals; optionally under a lowered
+    recursion limit ("large" for the code = more than limit // 2 nodes).  Returns
+    (failures [(key, what)], counts, model steps or None)'''
+    import inspect
+    import random
+    import sys
+    from valjean.cosette.depgraph import DepGraph
+    failures, counts = [], {}
+
+    def fail(key, what):
+        if len(failures) < 3:
+            failures.append((key, f'large graph {json.dumps(spec)}: {what}'))
+
+    old_limit = sys.getrecursionlimit()
+    limit = spec.get('limit') or old_limit
+    steps = None
+    try:
+        sys.setrecursionlimit(limit)
+        safe = limit - len(inspect.stack()) - 25
+        order, edges, cyclic = large_edges(spec, safe)
+        n = len(order)
+        rng = random.Random(spec['seed'] + 1)
+        obj = {i: f'L{i}' + '' for i in order}
+        name = {id(o): i for i, o in obj.items()}
+        g = DepGraph()
+        for i in order:
+            g.add_node(obj[i])
+        for a, b in edges:
+            g.add_dependency(obj[a], on=obj[b])
+        counts['large_graphs'] = 1
+        counts[f'large_{spec["kind"]}_limit{limit}'] = 1
+        counts['large_nodes'] = n
+        assert kahn_acyclic(order, edges) != cyclic
+
+        def check_graph(g, nodes, eset, label):
+            got_n = [name[id(k)] for k in g.nodes()]
+            got_e = {(name[id(k)], name[id(v)]) for k, vs in g for v in vs}
+            if sorted(got_n) != sorted(nodes) or len(g) != len(nodes):
+                return fail('large-nodes', f'{label}: {len(got_n)} nodes reported, {len(nodes)} expected')
+            if got_e != eset:
+                return fail('large-edges', f'{label}: edges lost {sorted(eset - got_e)[:3]} / '
+                                           f'invented {sorted(got_e - eset)[:3]}')
+            return None
+
+        def check_sort(g, nodes, eset, cyc, label):
+            try:
+                got = [name[id(k)] for k in g.topological_sort()]
+            except Exception as err:  # noqa
+                got = type(err).__name__
+            if cyc:
+                if got != 'DepGraphError':
+                    fail('large-sort-cyclic', f'{label}: cyclic graph with {len(nodes)} nodes, '
+                                              f'topological_sort gives {str(got)[:60]}')
+            elif isinstance(got, str):
+                fail('large-sort-raises', f'{label}: acyclic graph with {len(nodes)} nodes, '
+                                          f'topological_sort raises {got}')
+            else:
+                at = {k: i for i, k in enumerate(got)}
+                if len(at) != len(got) or sorted(got) != sorted(nodes):
+                    fail('large-sort-nodes', f'{label}: topological_sort does not list every one of '
+                                             f'{len(nodes)} nodes once ({len(got)} entries)')
+                else:
+                    bad = [(a, b) for a, b in eset if at[b] > at[a]]
+                    if bad:
+                        fail('large-sort-order', f'{label}: topological_sort of {len(nodes)} nodes lists '
+                                                 f'{len(bad)} nodes before a dependency, e.g. {bad[0]}')
+            return got
+
+        eset = set(edges)
+        check_graph(g, order, eset, 'after building')
+        got = check_sort(g, order, eset, cyclic, 'sort')
+        # queries on a sample of nodes, the first-stored one included
+        deps = {i: set() for i in order}
+        dees = {i: set() for i in order}
+        for a, b in edges:
+            deps[a].add(b)
+            dees[b].add(a)
+        for i in [order[0]] + rng.sample(order, min(n, 40)):
+            if {name[id(k)] for k in g.dependencies(obj[i])} != deps[i]:
+                fail('large-dependencies', f'dependencies({i}) wrong')
+            if {name[id(k)] for k in g.dependees(obj[i])} != dees[i]:
+                fail('large-dependees', f'dependees({i}) wrong')
+        for a, b in rng.sample(edges, min(len(edges), 20)):
+            if not g.depends(obj[a], obj[b]) or (b, a) not in eset and g.depends(obj[b], obj[a]):
+                fail('large-depends', f'depends({a}, {b}) wrong')
+        # transitive operations on copies (layered acyclic graphs: few paths)
+        if not cyclic and spec['kind'] == 'layered' and n <= 1200:
+            reach = {}
+            for a in sorted(order, reverse=True):          # edges go from lower to higher numbers
+                reach[a] = set()
+                for b in deps[a]:
+                    reach[a] |= {b} | reach[b]
+            red = g.copy().transitive_reduction()
+            want = {(a, b) for a, b in eset if not any(b in reach[c] for c in deps[a] if c != b)}
+            check_graph(red, order, want, 'transitive_reduction of a copy')
+            clo = g.copy().transitive_closure()
+            check_graph(clo, order, {(a, b) for a in order for b in reach[a]},
+                        'transitive_closure of a copy')
+            check_graph(g, order, eset, 'original after reduction / closure of copies')
+            counts['large_transitive'] = 1
+        # model correspondence on a sample: the same construction replayed inside Coq
+        if spec.get('model') and not failures:
+            snap = ('([' + '; '.join(str(2 * i) for i in order) + '], ['
+                    + '; '.join(f'({2 * a},{2 * b})' for a, b in sorted(eset)) + '])')
+            res = (f'(Raise {EXC.get(got, 7)})' if isinstance(got, str)
+                   else '(Ok [' + '; '.join(str(2 * i) for i in got) + '])')
+            steps = (['SMut (WNew) None []'] + [f'SMut (WAddNode 0 {2 * i}) None []' for i in order]
+                     + [f'SMut (WAddDep 0 {2 * a} {2 * b}) None []' for a, b in edges]
+                     + [f'SSort 0 {res}', f'SWorld [{snap}]'])
+        # removals (swap with the last position), the first-stored node among them
+        gone = set([order[0]] + rng.sample(order, min(n - 1, 15)))
+        for i in sorted(gone, key=lambda k: rng.random()):
+            g.remove_node(obj[i])
+        left = [i for i in order if i not in gone]
+        eleft = {(a, b) for a, b in eset if a not in gone and b not in gone}
+        check_graph(g, left, eleft, 'after 16 removals')
+        check_sort(g, left, eleft, not kahn_acyclic(left, eleft), 'sort after 16 removals')
+    except Exception as err:  # noqa
+        fail('large-raises', f'raises {type(err).__name__}: {str(err)[:80]}')
+    finally:
+        sys.setrecursionlimit(old_limit)
+    return failures, counts, steps
+
+
+def large_specs(ctx):
+    rng = ctx.rng
+    specs = []
+    # interpreter default recursion limit: a few really large graphs
+    specs += [{'kind': 'layered', 'n': 600, 'depth': 3}, {'kind': 'layered', 'n': 1100, 'depth': 5},
+              {'kind': 'layered', 'n': 2500, 'depth': 6, 'hub': 'middle'},
+              {'kind': 'layered', 'n': 700, 'depth': 4, 'first': 'middle'},
+              {'kind': 'chain', 'n': 900, 'first': 'deep'}, {'kind': 'chain', 'n': 900, 'first': 'shallow'},
+              {'kind': 'cycle_first', 'n': 600, 'depth': 4}, {'kind': 'cycle_first', 'n': 1100, 'depth': 3, 'hub': 'middle'},
+              {'kind': 'cycle_else', 'n': 600, 'depth': 4}, {'kind': 'cycle_else', 'n': 1300, 'depth': 5}]
+    # lowered recursion limit (200): "large" = more than 100 nodes, cheap, many variants
+    nlow = 24 if ctx.tier == 'quick' else 300
+    for k in range(nlow):
+        kind = ['layered', 'layered', 'chain', 'cycle_first', 'cycle_else', 'layered'][k % 6]
+        spec = {'kind': kind, 'n': rng.choice([101, 110, 130, 180, 300]), 'depth': rng.randint(3, 6),
+                'hub': rng.choice(['bottom', 'middle']), 'limit': 200,
+                'first': rng.choice(['hub', 'hub', 'middle']) if kind != 'chain'
+                else rng.choice(['deep', 'shallow', 'random'])}
+        if k < 4:
+            spec['n'] = [101, 104, 102, 108][k]
+            spec['model'] = True          # sampled: replayed on the Coq model as well
+        specs.append(spec)
+    for spec in specs:
+        spec['seed'] = rng.randrange(1 << 30)
+    return specs
+
+
 class Tally:
     '''context of a worker process: counts only'''
 
@@ -1042,6 +1266,21 @@ def run(ctx):
         five += [digraph_case(5, m) for m in range(lo, hi, 211)]
         times['digraph_sweep_impl_s'] = round(time.time() - t0, 1)
         run_stream(ctx, pool, five, items, reported, 9973)
+        # large graphs (size-dependent code paths), default and lowered recursion limit
+        specs = large_specs(ctx)
+        nlarge_model = 0
+        for spec, (failures, counts, steps) in zip(specs, pool.imap(run_large, specs)):
+            for key, n in counts.items():
+                if key == 'large_nodes':
+                    ctx.dist['large_max_nodes'] = max(ctx.dist.get('large_max_nodes', 0), n)
+                else:
+                    ctx.count(key, n)
+            ctx.case_seen({'large': spec}, True, sample_every=7)
+            for key, what in failures:
+                ctx.oracle_failure(f'{what} :: large', {'large': spec}, key=key)
+            if steps:
+                items.append(({'large': spec}, steps))
+                nlarge_model += 1
     times['all_impl_s'] = round(time.time() - t0, 1)
     ctx.evaluations += swept
     ctx.rule = ('three streams. (1) random edit histories (1-40 operations, 35 % removals, 8 plain nodes + '
@@ -1053,7 +1292,13 @@ def run(ctx):
                 + ('all' if thorough else 'every acyclic one and every 16th other')
                 + f'); vs brute force on {desc5}, vs model on every acyclic one of them and '
                 'every 211th other. non-trivial = a removal, merge or graft on a graph with >= 2 nodes, '
-                'or a sort with >= 2 edges, or a nested flatten; distinct by op list')
+                'or a sort with >= 2 edges, or a nested flatten; distinct by op list. (4) LARGE graphs (size-dependent '
+                f'code paths): {len(specs)} graphs with 600-2500 nodes at the default recursion limit and 101-300 nodes '
+                'under sys.setrecursionlimit(200) (wide layered DAGs of depth 3-6, chains below the recursion '
+                'limit, a cycle through the first-stored node, a cycle elsewhere): sort, nodes, edges, '
+                'dependencies, dependees, reduction/closure, removals against plain sets; 4 of them also on the model')
+    ctx.extra['large_graphs'] = {'graphs': len(specs), 'replayed_on_model': nlarge_model,
+                                 'max_nodes': ctx.dist.get('large_max_nodes')}
     ctx.extra['exhaustive'] = True
     ctx.extra['exhaustive_bounds'] = {
         'edit_histories': exh_desc, 'edit_histories_enumerated': len(exh),
@@ -1062,15 +1307,27 @@ def run(ctx):
         'digraphs5_real_vs_bruteforce': swept, 'digraphs5_complete': thorough,
         'digraphs5_real_vs_model': len(five)}
     # model side: long random histories in small shards, the short exhaustive ones in big shards
-    groups = [(0, nrandom, 100 if not thorough else 400), (nrandom, len(items), 400)]
+    # shards of about equal work (number of steps): one wave on 16 cores in the quick tier; the
+    # sampled large graphs two per shard
+    nsmallcases = len(items) - nlarge_model
+    total = sum(len(st) for _, st in items[:nsmallcases])
+    budget = max(total // 14, 1) if not thorough else 4500
+    bounds, acc, start = [], 0, 0
+    for k in range(nsmallcases):
+        acc += len(items[k][1])
+        if acc >= budget or k + 1 - start >= 600:
+            bounds.append((start, k + 1))
+            start, acc = k + 1, 0
+    if start < nsmallcases:
+        bounds.append((start, nsmallcases))
+    bounds += [(k, min(k + 2, len(items))) for k in range(nsmallcases, len(items), 2)]
     shards, owner = [], []
-    for start, stop, size in groups:
-        for k in range(start, stop, size):
-            chunk = items[k:min(k + size, stop)]
-            body = ';\n '.join('[' + ';\n  '.join(steps) + ']' for _, steps in chunk)
-            shards.append('Definition cases : list (list step) :=\n [' + body + '].\n'
-                          'Eval vm_compute in bad_indices (map check_case cases).')
-            owner.append(k)
+    for start, stop in bounds:
+        chunk = items[start:stop]
+        body = ';\n '.join('[' + ';\n  '.join(steps) + ']' for _, steps in chunk)
+        shards.append('Definition cases : list (list step) :=\n [' + body + '].\n'
+                      'Eval vm_compute in bad_indices (map check_case cases).')
+        owner.append(start)
     outs = common.coq_eval(ctx.pid, IMPORTS, shards)
     for k, out in zip(owner, outs):
         for i in common.parse_nat_list(out):
@@ -1091,6 +1348,12 @@ def replay(ctx, path):
     common.import_repo()
     data = json.load(open(path))
     case = data['case']
+    if isinstance(case, dict) and 'large' in case:
+        failures, counts, _ = run_large(case['large'])
+        print('large graph:', json.dumps(case['large']), counts)
+        for key, what in failures:
+            print('oracle:', key, what)
+        return 0
     runner = Runner(ctx, case).run()
     for op in case:
         print('op:', json.dumps(op))
